@@ -46,6 +46,7 @@ GenEmit == Done => PrintT(<<"EMIT", ToJson([tpi |-> TPI, hist |-> hist])>>)
 (* witness goals: NotGoal is checked as an invariant; the counterexample reaches the goal *)
 Reached ==
   CASE Goal = "retry"      -> retried \cap acked # {} /\ Idle
+    [] Goal = "retry2"     -> retried2 \cap acked # {} /\ Idle     \* one write outlived two pairs of rotations
     [] Goal = "lost"       -> lost # {}
     [] Goal = "leak"       -> Idle /\ running /\ Cardinality(OpenHandles) > 2
     [] Goal = "backwards"  -> \E w \in Writers : pc[w] = "p6" /\ Ivl(wNow[w]) < marker
